@@ -1,0 +1,11 @@
+//go:build verif
+
+package crl
+
+import "github.com/notaryproject/notation-go/internal/file"
+
+// SetVerifWriteHook installs h as the step hook of internal/file.WriteFile.
+// It exists only in builds with the verif tag.
+func SetVerifWriteHook(h func(point, temp, path string)) {
+	file.VerifHook = h
+}
